@@ -67,6 +67,23 @@ CHECKS = {
          "trusted: models::sm83 (unit-tested against published tables and BCD identities); cartridge fixed to MBC1+32KiB RAM", "DESIGN.md §5 C05"),
 }
 
+# layers added later (appended to the level text)
+EXTRA = {
+ "C02": " Through the emulator's own dispatch: the bank-switching cache-pressure program (blocks of different length per bank) is block-stepped on the jit and interpreter builds and last_block_cycle_length must agree after every block while the translation area restarts.",
+ "C05": " Every instruction with operand bytes is also placed across the ends of ROM bank 0, the switchable bank and work-RAM bank 0 and in the switchable bank under 9 bank-register values (incl. values that wrap to banks 0/1), the other banks holding complemented bytes.",
+ "C06": " All encodings are also executed from the switchable bank and the end of bank 0 under bank-register values 2, 5, 0x1F, 8, 0x10, 0 with complemented bytes in the other banks.",
+ "C07": " Fourth pass: after a dispatch the handler's first step (update(), interpreter block, translated block) must deliver 4 x (5 + its instructions' machine cycles) clocks to the devices.",
+ "C08": " Generated sequences also contain STOP with an arbitrary second byte.",
+ "C11": " Files of 16 lengths around the declared size go through the loader main() uses; for whatever it accepts, every bank is selected and read across its whole window.",
+ "C12": " Executed view: after every write of generated histories the interpreter build and the jit build (cache kept warm) execute LD BC,nn at 0x3FFE and LD B,n at 0x3FFF, whose operand byte at 0x4000 must be the visible bank's stamp.",
+ "C13": " Program layer: generated programs on a whole core in three stepping modes; models::timer, fed with the reference machine's bus writes and clocks per step, must agree with DIV/TIMA/TMA/TAC/IF bit 2 after every step.",
+ "C14": " Program layer: generated programs on a whole core in three stepping modes; LY, STAT and IF bits 0-1 must follow models::lcd at the delivered total after every step (with DMA, HALT and STOP in the programs).",
+ "C15": " Whole-core layer: the scene is built by a guest program (direct stores or OAM DMA) in three stepping modes; two frames later the presented buffer must be the reference composition.",
+ "C16": " Program layer: DMA left running under register code, long blocks, HALT and STOP on a whole core in three stepping modes; all 160 OAM bytes must match the byte-per-machine-cycle model after every step.",
+ "C17": " Program layer: generated programs with injected button events on a whole core; P1 and IF bit 4 must follow models::joypad after every step (the request survives the dispatch of other sources).",
+ "C18": " In every stepping mode the captured stream must also equal the stream of the reference CPU running the same program.",
+}
+
 def hooks_commits():
     out = subprocess.run(["git","-C","/repo","log","--format=%h %s"],capture_output=True,text=True).stdout
     return [l.split()[0] for l in out.splitlines() if "verif hook" in l]
@@ -78,6 +95,7 @@ for p in props:
     pid = p["id"]
     if pid in CHECKS:
         tech, text, note, ref = CHECKS[pid]
+        text = text + EXTRA.get(pid, "")
         checks.append({
             "property_id": pid,
             "quick_cmd": f"./check {pid} quick",
